@@ -32,10 +32,15 @@ pub fn gen_case(r: &mut Rng, out: &mut String) {
                 match r.below(10) {
                     0..=3 => r.range(1, 20),
                     4..=6 => r.range(21, 400),
-                    7..=8 => r.range(400, 1500),
-                    _ => {
+                    7 => r.range(400, 1500),
+                    8 => {
                         small = false;
-                        r.range(1500, 5000)
+                        r.range(1500, 4096)
+                    }
+                    _ => {
+                        // a bitset chunk inside the partition (the word-level cursors of the 32-bit layer)
+                        small = false;
+                        r.range(4097, 7000)
                     }
                 }
             };
@@ -159,8 +164,8 @@ pub fn gen_case(r: &mut Rng, out: &mut String) {
                             let k = (*r.pick(&[0usize, 0, 0, 0, 1, 1, 2])).min(inside.len() - 1);
                             jitter(r, inside[inside.len() - 1 - k])
                         }
-                        10..=12 => hi.saturating_add(r.below(3) * (P32 / 2) + r.below(100)), // after the back
-                        13 => match r.below(3) {
+                        10..=11 => hi.saturating_add(r.below(3) * (P32 / 2) + r.below(100)), // after the back
+                        12 | 13 => match r.below(3) {
                             // below the front: anywhere, the last bit of the 64-bit word below the front's word, one word lower
                             0 => lo.saturating_sub(*r.pick(&[1u64, 70000, P32])),
                             1 => (lo & !63).saturating_sub(1),
